@@ -33,8 +33,8 @@ static const char *role() { return is_main() ? "M" : "F"; }
 static void hook(const char *name, long a, long b) {
     if (strncmp(name, "loop.", 5)) return;
     const char *n = name + 5;
-    if (!strcmp(n, "after.enter") || !strcmp(n, "destroy.cleanup")) g_in_drain = true;
-    else if (!strcmp(n, "after.closed") || !strcmp(n, "start.enter")) g_in_drain = false;
+    if (!strcmp(n, "after.enter") || !strcmp(n, "destroy.cleanup")) g_in_drain = true;       // cleared when runLoop() has returned / at the next start
+    else if (!strcmp(n, "start.enter")) g_in_drain = false;
     S().arrive(name, role(), b);
     uint64_t seq = next_seq();
     std::string e;
@@ -126,10 +126,22 @@ static void run_execution(const json &x) {
         if (fs.empty()) submit("next", g_exit_task);
         emit(J("run_loop") + kb("once", once) + "}");
         {   CallGuard cg; g_loop->runLoop(once ? Loop::Mode::kOnce : Loop::Mode::kForever); }
+        g_in_drain = false;
         emit(J("loop_return") + "}");
         for (auto &t : th) t.join();
     }
+    if (x.contains("after_cleanup")) {
+        // the owner calls cleanup() on the stopped loop itself (it drains what is pending), defers some more work, and only then destroys the
+        // loop: what was deferred after the explicit cleanup() still has to run (at destruction)
+        emit(J("cleanup_call") + "}");
+        g_in_drain = true;
+        {   CallGuard cg; g_loop->cleanup(); }
+        g_in_drain = false;
+        emit(J("cleanup_ret") + "}");
+        for (auto &op : x["after_cleanup"]) do_op(op);
+    }
     emit(J("destroy") + "}");
+    g_in_drain = true;
     {   CallGuard cg; delete g_loop; g_loop = nullptr; }
     emit(J("destroyed") + "}");
     emit(J("end") + kv("gate_timeouts", S().gate_timeouts.load()) + "}");
@@ -198,7 +210,12 @@ static json random_execution(vh::Rng &rng, uint64_t seed) {
         if (rng.chance(25)) round["exit_ms"] = (int)rng.range(1, 4);
         rounds.push_back(round);
     }
-    // a few submissions left pending for the destructor
+    if (rng.chance(30)) {       // explicit cleanup() of the stopped loop, then a few more submissions left pending for the destructor
+        json ac = json::array();
+        int n = (int)rng.range(0, 3);
+        for (int i = 0; i < n; ++i) { int k = ++next_task; ac.push_back({{"o", rng.chance(50) ? "next" : rng.chance(50) ? "ril" : "run"}, {"t", k}}); tasks[std::to_string(k)] = json::array(); }
+        x["after_cleanup"] = ac;
+    }
     x["rounds"] = rounds; x["tasks"] = tasks;
     return x;
 }
